@@ -12,7 +12,11 @@ N = {"quick": 2000, "thorough": 24000}
 RULE = (
     "two streams. (spec, 60%) REAL specifications returned by auto_search: words_ext (28 start classes x 18 packs "
     "incl. symmetries, inferral, factories, verification strategies with packs, iterative x 4 rule databases incl. "
-    "RuleDBForest with reverse rules x expand_verified x smallest) and word classes WITH STATISTICS (number of "
+    "RuleDBForest with reverse rules x expand_verified x smallest; in 13% of these the pack is one of the 11 "
+    "one-factor-product packs of harness/universes/words_onefactor.py - a relabelling / re-description of the class "
+    "declared as a CartesianProductStrategy with ONE child, which the searcher uses as an equivalence step of "
+    "EquivalencePathRules forwards and in reverse (fix 25e10f1); a returned specification one of whose rules has no "
+    "constructor (AssertionError) is reported, not skipped) and word classes WITH STATISTICS (number of "
     "occurrences of chosen letters as extra parameters; union/product/symmetry strategies that keep, rename or drop "
     "parameters; 10 start classes x symmetry x 2 rule databases). (rule, 40%) single REAL rule objects whose children "
     "answer by brute force: ExpansionStrategy / RemoveFrontOfPrefix / their statistics versions on random classes, "
@@ -194,6 +198,7 @@ class World:
         self.spec = None
         self.unsupported = None   # a specification containing a rule without get_sub_objects
         self.mapsonly = False     # a single rule without get_sub_objects: only its maps are exercised
+        self.broken = None        # a rule of a RETURNED specification whose constructor cannot be built
 
 
 def _mk_class(d):
@@ -376,8 +381,15 @@ def _build(case):
             try:
                 if not isinstance(r.constructor, (DisjointUnion, CartesianProduct)):
                     nogen = True
-            except (NotImplementedError, AssertionError):
+            except NotImplementedError:
                 nogen = True
+            except AssertionError as e:
+                nogen = True
+                if case["kind"] == "spec":
+                    # not a rule form outside the property (those raise NotImplementedError by design): the searcher
+                    # returned a specification with a rule nothing can be counted or generated from
+                    w.broken = "rule of class %s of the returned specification (%s: %s) has no constructor: %s" % (
+                        r.comb_class, type(r).__name__, r.formal_step, repr(e)[:80])
     w.unsupported = nogen and case["kind"] == "spec"
     w.mapsonly = nogen and case["kind"] != "spec"
     return w
@@ -560,6 +572,8 @@ def impl(case):
     w = build(case)
     if w is None:
         return {"out": [], "skip": "no specification / rule does not apply"}
+    if w.broken:
+        return {"out": [], "broken": w.broken}
     if w.unsupported:
         return {"out": [], "skip": "a rule without get_sub_objects (Complement/Quotient)"}
     _fresh(w)
@@ -720,6 +734,8 @@ def oracle(case, res):
     U = _U()
     if "exception" in res:
         return "implementation raised " + res["exception"]
+    if res.get("broken"):
+        return res["broken"]
     if res.get("skip"):
         return None
     if res.get("bad"):
@@ -873,7 +889,9 @@ def _gen_spec(rng):
         cfg = {"universe": "stat", "start": rng.randrange(len(U.STAT_STARTS)), "sym": int(rng.random() < 0.5),
                "ruledb": rng.choice(["base", "forest"]), "tree_seed": rng.randrange(1 << 30)}
     else:
-        cfg = X.random_cfg(rng)
+        from harness.universes import words_onefactor
+
+        cfg = words_onefactor.maybe_onefactor(rng, X.random_cfg(rng))   # 13%: packs with one-factor products
         cfg["universe"] = "ext"
     return dict(base, cfg=cfg)
 
@@ -898,7 +916,7 @@ def nontrivial(case, res):
     from comb_spec_searcher.strategies.constructor import CartesianProduct
     from comb_spec_searcher.strategies.rule import EquivalencePathRule, VerificationRule
 
-    if res.get("skip") or "out" not in res:
+    if res.get("skip") or res.get("broken") or "out" not in res:
         return False
     w = build(case)
     n, _ = _limits(w, case)
@@ -931,6 +949,8 @@ def classify(case, res):
         return tags + ["skipped: " + res["skip"]]
     if "out" not in res or "exception" in res:
         return tags + ["exception"]
+    if res.get("broken"):
+        return tags + ["returned specification has a rule without constructor"]
     w = build(case)
     if case["kind"] == "spec":
         tags.append("universe=" + case["cfg"]["universe"])
@@ -949,6 +969,15 @@ def classify(case, res):
                     tags.append("path has EquivalenceRule(%s)" % type(x.original_rule).__name__)
         elif isinstance(r, (EquivalenceRule, ReverseRule)):
             tags.append("bare " + type(r).__name__)
+    if w.spec is not None:
+        # product rules with a single factor (fix 25e10f1) as steps of equivalence paths, forwards / in reverse
+        from harness.universes import words_onefactor
+
+        cen = words_onefactor.onefactor_census(w.spec)
+        for k, name in (("path_fwd", "one-factor-product in a path"), ("path_rev", "one-factor-product-reverse in a path"),
+                        ("lone_fwd", "one-factor-product lone"), ("lone_rev", "one-factor-product-reverse lone")):
+            if cen[k]:
+                tags.append(name)
     return sorted(set(tags))
 
 
